@@ -111,3 +111,25 @@ PROPS['C07'] = dict(
     assumptions=[T_CHAIN, 'ledger effect of each emitted message (bank send moves coins from the emitting contract only; cw20 transfer/transfer_from/mint/burn/send move only the named owner/recipient balances and the supply) is the documented behaviour of the bank module and cw20-base 1.0.0, not verified here'],
     explanation='Frame contracts: every state-changing pair / router handler carries a postcondition that pins its ENTIRE message list (swap: at most one transfer of the ask asset from the pair to the receiver; withdraw: two refunds to the hook sender + burn of exactly a; provide: TransferFrom(owner = caller, recipient = pair, declared amount) per cw20 asset + mint(s) on the LP token of exactly the computed share; router: self-calls per hop, one swap message spending only the router\'s own balance, assertion message) and leaves storage untouched. No other message can be emitted, so no third-party balance is named anywhere.',
 )
+
+T_FSTORE = 'factory storage: cw-storage-plus Item/Map modelled as fields / ghost maps of a storage record; may_load never fails on typed storage; Map::range(None,None,Ascending).map(to_normal).collect() (read_all_pairs) returns every record exactly once'
+T_BYTES = 'byte-level std facts: String::as_bytes is an injective function of the text (UTF-8), <[u8] as Ord>::cmp is lexicographic, Ordering::then, bool::cmp, u64::to_be_bytes is injective with 8 bytes; slice::sort_by on two elements / [T;2]::to_vec / Vec::extend_from_slice behave like the verified helpers'
+T_FQ = 'factory-side queries are projections of the chain state: native_decimals_of (factory allow-list query), cw20 token_info, pair_self_report (the pair\'s own Pair{} answer), reply_contract_addr (address parsed from the instantiate reply); Decimal256 -> text -> Decimal256 and the literal "0.003" are text (C18 n/a) and assumed'
+FACTORY_TRUST = [T_VERUS, T_CW, T_API, T_FSTORE, T_BYTES, T_FQ, T_SERDE, T_DERIVE2, T_R4, T_R2]
+
+PROPS['C14'] = dict(
+    units=[('u_factory.rs', 'B', ['factory']), ('u_pair.rs', 'B', None), ('u_router.rs', 'B', ['router'])], min_tagged=25,
+    trusted=sorted(set(PAIR_TRUST + ROUTER_TRUST + FACTORY_TRUST)),
+    assumptions=['"a rejected call changes no balance" = the handler returns Err and the chain reverts the transaction; for storage the no-write clauses are proved', 'the former owner is rejected after a transfer: induction over cfg.ownership-follows (the stored owner is exactly the last successfully configured one)'],
+    explanation='every privileged arm carries "Ok => caller is the stored authority" and "caller is not the authority => Err and storage unchanged": factory execute (all four arms: owner), pair update_native_token_decimals (factory only), pair hooks (withdraw: own LP token; swap: one of its cw20 assets), router single-hop and minimum-receive messages (router itself); update_config sets the owner to exactly the requested address.',
+)
+PROPS['C16'] = dict(
+    units=[('u_factory.rs', 'B', ['factory', 'asset'])], min_tagged=14, trusted=FACTORY_TRUST,
+    assumptions=['"live cw20 contract" = the token_info query answers; lookups resolve through PAIRS[pair_key(raw(infos))] and the symmetric / injective key lemmas; the registry invariant (every record stored under the key of its own assets) is carried by lemma_registry_wf_preserved over create_pair + reply', 'identifier byte strings are shorter than 2^64 (Vec/String lengths)'],
+    explanation='pair_key is verified against pair_key_spec (kind tag + length prefix + sorted identifiers); lemma_key_symmetric and lemma_key_injective give either-order lookup and one-key-per-unordered-set for all identifiers; execute_create_pair: owner only, distinct assets, rate <= 1, key not yet registered, temporary record = (key, raw infos, TRUE decimals from the allow-list / token_info), frame; reply stores exactly (tmp infos, tmp decimals, pair self-report) under the tmp key and leaves every other record untouched; query_pair reads PAIRS at the key of the raw infos.',
+)
+PROPS['C17'] = dict(
+    units=[('u_factory.rs', 'B', ['factory', 'asset']), ('u_pair.rs', 'B', None)], min_tagged=14, trusted=sorted(set(FACTORY_TRUST + PAIR_TRUST)),
+    assumptions=[T_CHAIN, 'the UpdateNativeTokenDecimals messages emitted by the factory are delivered to the pairs in the same transaction (chain semantics); registry well-formedness (records stored under the key of their own two distinct assets) is an explicit hypothesis discharged by lemma_registry_wf_preserved / lemma_registry_wf_after_update'],
+    explanation='execute_add_native_token_decimals: allow-list entry becomes the new value; for a well-formed registry and an already registered denom EVERY record (loop invariant over the complete listing) has the position(s) of that denom set to the new value and everything else unchanged; first registration touches no record; pair update_native_token_decimals: factory only, decimals replaced iff the denom is one of its native assets.',
+)
